@@ -97,6 +97,12 @@ CHECKS = {
             "Debug, release, nightly-toolchain and hook-free builds, 16 concurrent threads (all cases on all threads) and "
             "reversed call order are compared by TLC (C19_same, C19_events); thread schedules are sampled, not enumerated.",
             "TLA+ relational trace checking (TraceMon/Rel) across builds/threads/histories"),
+    "C20": ("exploration", "8 C20",
+            "The extension is built from a scratch copy (generated enum modules compared byte for byte with the committed "
+            "ones), called from python3 on well-formed programs and arbitrary strings; TLC checks on each (native view, Python "
+            "view) pair: positional decoding into the declared fields, fidelity to the native view, enum membership, tiling by "
+            "code points, line/column rules, payload ranges and unquoted values, and 'always returns' on well-formed programs.",
+            "TLA+ clauses (spec/PyBind.tla) on (native, Python) result pairs; file comparison for the generated enums"),
 }
 
 NOT_BUILT = {}
@@ -149,7 +155,8 @@ def main():
                 "replay_cmd_template": "./check %s --replay {path}" % pid,
                 "engine": "tlc-monitor",
                 "level_claimed": {"category": level, "text": text, "design_ref": "DESIGN.md section " + ref},
-                "level_note": MON_NOTE,
+                "level_note": MON_NOTE if pid != "C20" else MON_NOTE + " C20: the extension links the published sas-lexer 1.0.0-beta.3 "
+                              "from the offline cargo registry, not the workspace crate; two defects of that crate are listed as known findings.",
                 "technique": tech,
             })
         else:
